@@ -264,6 +264,7 @@ func (g *vcgen) monLock(mon *Monitor, obj string) {
 		g.setOld(arr, fmt.Sprintf("(store %s %s %s)", g.get(g.st, "old:"+arr), obj, fv))
 	}
 	g.assumeHeapTypes(mon, obj)
+	g.havocOwned(mon, obj)
 	env := g.monEnv(mon, obj, g.st, nil)
 	for _, inv := range mon.Invariants {
 		t, err := env.EvalBool(inv.Expr)
@@ -280,6 +281,58 @@ func (g *vcgen) monLock(mon *Monitor, obj string) {
 		if err == nil {
 			g.set(g.woldVar(mon), fmt.Sprintf("(store %s %s %s)", g.get(g.st, g.woldVar(mon)), obj, w))
 		}
+	}
+}
+
+// havocOwned: fields of objects reachable through a protected pointer field belong to the monitor as well
+func (g *vcgen) havocOwned(mon *Monitor, obj string) {
+	if len(mon.Owns) == 0 {
+		return
+	}
+	p := g.eng.AllPkgs[mon.Pkg]
+	tn := p.Types.Scope().Lookup(mon.Type).(*types.TypeName)
+	st := tn.Type().Underlying().(*types.Struct)
+	for i := 0; i < st.NumFields(); i++ {
+		owned, ok := mon.Owns[st.Field(i).Name()]
+		if !ok {
+			continue
+		}
+		pt, ok := st.Field(i).Type().Underlying().(*types.Pointer)
+		if !ok {
+			continue
+		}
+		ref := g.define("owned", "Int", g.loadFieldIn(g.st, obj, tn.Type(), i))
+		var walk func(base string, t types.Type, names []string, all bool, label string)
+		walk = func(base string, t types.Type, names []string, all bool, label string) {
+			s2, ok := t.Underlying().(*types.Struct)
+			if !ok {
+				return
+			}
+			for k := 0; k < s2.NumFields(); k++ {
+				f := s2.Field(k)
+				if !all {
+					found := false
+					for _, n := range names {
+						if n == f.Name() {
+							found = true
+						}
+					}
+					if !found {
+						continue
+					}
+				}
+				if _, isS := f.Type().Underlying().(*types.Struct); isS && isDecomposedStruct(f.Type()) {
+					walk(g.emb(t, f.Name(), base), f.Type(), nil, true, label+"."+f.Name())
+					continue
+				}
+				arr, ft := g.fieldArr(t, k)
+				fv := g.freshOfType("own", ft)
+				g.addWitness(label+"."+f.Name()+"@lock", fv)
+				g.set(arr, fmt.Sprintf("(store %s %s %s)", g.get(g.st, arr), base, fv))
+				g.setOld(arr, fmt.Sprintf("(store %s %s %s)", g.get(g.st, "old:"+arr), base, fv))
+			}
+		}
+		walk(ref, pt.Elem(), owned, false, mon.Recv+"."+st.Field(i).Name())
 	}
 }
 
@@ -380,6 +433,10 @@ func (g *vcgen) call(v ssa.Value, c *ssa.CallCommon, deferred bool) []string {
 		return g.applyFunc(v, mc.Fn.(*ssa.Function), args, binds, c)
 	}
 	g.nonNil(fv, origin(c.Value))
+	if fk := g.eng.libraryFuncField(c.Value); fk != "" {
+		g.noteAssumption("dynamic call through field " + fk + ": every value stored there is the result of a library call (checked), so the call is a library call without effect on module state")
+		return g.freshResults(c.Signature())
+	}
 	g.warn("dynamic call through %s: all state havocked", origin(c.Value))
 	g.havocAll()
 	return g.freshResults(c.Signature())
@@ -430,18 +487,21 @@ func (g *vcgen) havocEffects(eff *Effects) {
 		g.havocAll()
 		return
 	}
+	g.stateVar("G.alloc", "Int")
+	g.havocNamed("G.alloc")
 	var names []string
 	for n := range eff.Vars {
 		names = append(names, n)
 	}
 	sort.Strings(names)
 	for _, n := range names {
+		if n == "G.alloc" {
+			continue
+		}
 		// make sure the variable exists so that later reads see the post-call version
 		g.stateVar(n, eff.Vars[n](g.s))
 		g.havocNamed(n)
 	}
-	g.stateVar("G.alloc", "Int")
-	g.havocNamed("G.alloc")
 }
 
 // special library functions
@@ -675,6 +735,8 @@ func (g *vcgen) applyContract(fc *FuncContract, fn *ssa.Function, sig *types.Sig
 	}
 	// frame: what the callee may modify must be allowed by the caller's own modifies clause
 	if fc.HasModifies {
+		g.stateVar("G.alloc", "Int")
+		g.havocNamed("G.alloc")
 		for _, m := range fc.Modifies {
 			g.havocTarget(m, envPre, fn)
 		}
@@ -685,8 +747,6 @@ func (g *vcgen) applyContract(fc *FuncContract, fn *ssa.Function, sig *types.Sig
 			g.havocNamed("G.last." + ev)
 			g.havocNamed("G.now")
 		}
-		g.stateVar("G.alloc", "Int")
-		g.havocNamed("G.alloc")
 	} else if fn != nil && fn.Blocks != nil && g.eng.InModule(fn) {
 		g.havocEffects(g.eng.FuncEffects(fn))
 	} else {
@@ -841,6 +901,8 @@ func (g *vcgen) frameCheckField(base string, st types.Type, idx int) {
 	fname := st.Underlying().(*types.Struct).Field(idx).Name()
 	var allowed []string
 	allowed = append(allowed, fmt.Sprintf("(> %s %s)", base, g.get(g.old0, "G.alloc"))) // object allocated by this call
+	fenv := *g.entryEnv
+	fenv.cur = g.oldView(g.st) // modifies targets are evaluated in the pre-state (for monitor-protected fields: at acquisition)
 	for _, m := range g.fc.Modifies {
 		if m.Op == "call" && m.Args[0].Op == "id" && m.Args[0].Name == "all" && m.Args[1].Op == "sel" && m.Args[1].Name == fname {
 			if t, err := g.eng.staticTypeOf(m.Args[1].Args[0], g.fn); err == nil && sameStruct(t, st) {
@@ -850,9 +912,9 @@ func (g *vcgen) frameCheckField(base string, st types.Type, idx int) {
 		if m.Op != "sel" || m.Name != fname {
 			// a struct-typed target covers its inner fields
 			if m.Op == "sel" {
-				if b, err := g.entryEnv.Eval(m); err == nil && b.typ != nil {
+				if b, err := fenv.Eval(m); err == nil && b.typ != nil {
 					if _, isS := b.typ.Underlying().(*types.Struct); isS && isDecomposedStruct(b.typ) && sameStruct(b.typ, st) {
-						bb, _ := g.entryEnv.Eval(m.Args[0])
+						bb, _ := fenv.Eval(m.Args[0])
 						bt := bb.typ
 						if p, ok := bt.Underlying().(*types.Pointer); ok {
 							bt = p.Elem()
@@ -863,7 +925,7 @@ func (g *vcgen) frameCheckField(base string, st types.Type, idx int) {
 			}
 			continue
 		}
-		b, err := g.entryEnv.Eval(m.Args[0])
+		b, err := fenv.Eval(m.Args[0])
 		if err != nil || b.typ == nil {
 			continue
 		}
@@ -953,9 +1015,12 @@ func (g *vcgen) invoke(v ssa.Value, c *ssa.CallCommon, args []string) []string {
 		sig := c.Signature()
 		full := append([]string{recv}, args...)
 		msig := types.NewSignatureType(types.NewVar(token.NoPos, nil, "recv", itype), nil, nil, sig.Params(), sig.Results(), sig.Variadic())
-		return g.applyContract(fc, nil, msig, full, nil, "("+iname+")."+mname)
+		return g.applyContract(fc, nil, msig, full, nil, ifaceMethodKey(itype, mname))
 	}
-	impls := g.eng.Implementers(itype.Underlying().(*types.Interface), iname)
+	var impls []types.Type
+	if closedWorld(itype) {
+		impls = g.eng.Implementers(itype.Underlying().(*types.Interface), iname)
+	}
 	if len(impls) == 0 {
 		g.noteAssumption("interface method without implementation in the module and without assumed contract: (" + iname + ")." + mname + " (no heap effect, arbitrary result)")
 		return g.freshResults(c.Signature())
@@ -1299,7 +1364,7 @@ func (e *Engine) eventsFor(c *ssa.CallCommon) []*EventDecl {
 	}
 	var name string
 	if c.IsInvoke() {
-		name = "(" + typeName(c.Value.Type()) + ")." + c.Method.Name()
+		name = ifaceMethodKey(c.Value.Type(), c.Method.Name())
 	} else if fn := c.StaticCallee(); fn != nil {
 		name = FullName(fn)
 	} else {
@@ -1358,4 +1423,54 @@ func (g *vcgen) emitEvents(c *ssa.CallCommon, args []string) {
 		g.set("G.first."+ev.Name, fmt.Sprintf("(ite (and %s (= %s 0)) %s %s)", cond, cnt, nn, first))
 		g.set("G.last."+ev.Name, fmt.Sprintf("(ite %s %s %s)", cond, nn, last))
 	}
+}
+
+// libraryFuncField: if v is a load of a struct field of function type and every store to that field in the
+// module stores nil or the result of a call to a function outside the module, the field's key is returned.
+func (e *Engine) libraryFuncField(v ssa.Value) string {
+	ld, ok := v.(*ssa.UnOp)
+	if !ok || ld.Op != token.MUL {
+		return ""
+	}
+	fa, ok := ld.X.(*ssa.FieldAddr)
+	if !ok {
+		return ""
+	}
+	key := fieldKey(fa)
+	found := false
+	for _, f := range e.AllFuncs {
+		for _, b := range f.Blocks {
+			for _, ins := range b.Instrs {
+				st, ok := ins.(*ssa.Store)
+				if !ok {
+					continue
+				}
+				sfa, ok := st.Addr.(*ssa.FieldAddr)
+				if !ok || fieldKey(sfa) != key {
+					continue
+				}
+				found = true
+				val := st.Val
+				if ct, ok := val.(*ssa.ChangeType); ok {
+					val = ct.X
+				}
+				if ex, ok := val.(*ssa.Extract); ok {
+					val = ex.Tuple
+				}
+				switch x := val.(type) {
+				case *ssa.Const:
+					continue
+				case *ssa.Call:
+					if fn := x.Common().StaticCallee(); fn != nil && !e.InModule(fn) {
+						continue
+					}
+				}
+				return ""
+			}
+		}
+	}
+	if !found {
+		return ""
+	}
+	return key
 }
